@@ -325,6 +325,10 @@ static void op_alloc(void) {
   do { op = (int)vf_randn(A_COUNT); }
   while ((only_zero_ops && !(aops[op].fl & F_ZERO)) || (only_aligned && !(aops[op].fl & (F_AL | F_PAGEAL))) || (allow_heaps == 0 && (aops[op].fl & F_HEAP)));
   size_t n = pick_size();
+  if ((aops[op].fl & F_STR) && vf_randn(2)) {      /* strings whose length is exactly a block size: the terminator needs the next class */
+    static const size_t cls[] = {8, 16, 32, 48, 64, 80, 96, 112, 128, 160, 192, 224, 256, 320, 384, 448, 512, 640, 768, 896, 1024, 1280, 2048, 4096, 8192};
+    n = cls[vf_randn(sizeof(cls) / sizeof(size_t))] + 1;
+  }
   size_t al = pick_align(n);
   size_t off = 0;
   if (aops[op].fl & F_AT) {
@@ -1073,7 +1077,11 @@ static void ev_quiesce(int round) {
   size_t n = mi_arena_get_count(); int first = 1;
   for (size_t i = 0; i < n; i++) { size_t sz = 0; void* st = mi_arena_area(mi_arena_id_create(i), &sz); if (st == NULL) continue;
     vf_logf("%s[%ld,%ld,%ld,%ld]", first ? "" : ",", VF_HI(st), VF_LO(st), VF_HI(sz), VF_LO(sz)); first = 0; }
-  vf_logf("],\"resident\":%ld,\"vsize\":%ld,\"tol\":%d}", statm_pages(1), statm_pages(0), 96); vf_log_line_end();
+  int armed = 0;
+#if defined(VF_SHIM)
+  armed = (vf_fault_armed && vf_fault_at > 0);      /* OS calls are (still) being refused: the give-back obligations wait for the recovery */
+#endif
+  vf_logf("],\"resident\":%ld,\"vsize\":%ld,\"tol\":%d,\"armed\":%s}", statm_pages(1), statm_pages(0), 96, armed ? "true" : "false"); vf_log_line_end();
 }
 static void do_collect(int force) {
   ret_t r; memset(&r, 0, sizeof(r));
